@@ -244,6 +244,16 @@ func main() {
 					out.Write(b)
 					out.WriteByte('\n')
 				}
+			} else if probe.Mode == "flushstorm" {
+				var fc FlushStormCase
+				if jerr := json.Unmarshal(line, &fc); jerr != nil {
+					fmt.Fprintln(out, `{"name":"?","note":"bad-case"}`)
+				} else {
+					r := runFlushStorm(fc)
+					b, _ := json.Marshal(r)
+					out.Write(b)
+					out.WriteByte('\n')
+				}
 			} else if probe.Mode == "crash" {
 				var cc CrashCase
 				if jerr := json.Unmarshal(line, &cc); jerr != nil {
